@@ -6,7 +6,7 @@ WT=/tmp/wt-$ID; OUT=/tmp/out-$ID/$M
 export GOFLAGS=-mod=mod GOPROXY=off GOSUMDB=off GOTOOLCHAIN=local
 cd $WT || exit 9
 git checkout -q -- . && git clean -fdq
-CP=$(grep -m1 -E "^\s*cp .*demo" $OUT/README.md | sed 's/^\s*//')
+CP=$(grep -m1 -E "^\s*(mkdir .*&& *)?cp .*demo" $OUT/README.md | sed 's/^\s*//')
 RUN=$(grep -m1 -E "^\s*go (test|run) " $OUT/README.md | sed 's/^\s*//')
 [ -z "$CP" ] && { echo "no cp line in README"; exit 8; }
 echo "demo: $CP ; $RUN"
@@ -15,7 +15,8 @@ if eval "$RUN" > /tmp/confirm.$ID.$M.clean.log 2>&1; then echo "clean: demo PASS
 git apply $OUT/patch.diff || { echo "patch does not apply"; exit 6; }
 if go build ./orcas/... ./server/... ./handlers/... ./protocol/... ./metrics/... ./common/... ./timer/... && go build -o /dev/null app/memproxy.go; then echo "patched: build ok"; else echo "patched: BUILD FAILS"; fi
 if eval "$RUN" > /tmp/confirm.$ID.$M.patched.log 2>&1; then echo "patched: demo PASS (unexpected)"; else echo "patched: demo FAIL (as required)"; fi
-DEMO=$(echo "$CP" | awk '{print $3}')
-rm -f "$DEMO"
+SRC=$(echo "$CP" | sed 's/.*cp //' | awk '{print $1}')
+DEMO=$(echo "$CP" | sed 's/.*cp //' | awk '{print $2}')
+if [ -d "$DEMO" ]; then rm -f "$DEMO/$(basename $SRC)"; rmdir "$DEMO" 2>/dev/null; else rm -f "$DEMO"; fi
 if go test -vet=off -count=1 ./orcas/... ./server/... ./protocol/... ./metrics/... ./timer/... ./handlers/... ./consul/... > /tmp/confirm.$ID.$M.suite.log 2>&1; then echo "patched: existing suite PASS"; else echo "patched: existing suite FAIL"; grep -E "^(FAIL|---)" /tmp/confirm.$ID.$M.suite.log | head; fi
 git checkout -q -- . && git clean -fdq
